@@ -35,7 +35,7 @@ def build_c_rain(two_pass=False):
     if two_pass:
         text2 = re.sub(r"^#define USE_FASTER_RAINFLOW_ROUTINE\s*$", "", text, flags=re.M)
         if text2 == text:
-            raise RuntimeError("macro USE_FASTER_RAINFLOW_ROUTINE not found in c_rain.c")
+            return None       # the source no longer has a second variant behind this macro
         text = text2
     csrc = os.path.join(d, "c_rain.c")
     with open(csrc, "w") as f:
